@@ -669,11 +669,144 @@ func c11Fault(idx int, r *Rng) (string, func() string) {
 	}
 }
 
+// ------------------------------------------------------------------------------------------------
+// two callers at once: is every reply the caller's own?
+
+// c11FixedReq builds a request whose reply does not depend on what else is going on: kinds 0-3 must be answered
+// with an error, kinds 4-7 with success.
+func c11FixedReq(kind, nchan int) c11Req {
+	var reply bool
+	trig := func(idx int) c11Req {
+		return c11Req{fmt.Sprintf("T 1 %d", idx), func(h *lcH) (error, bool) {
+			return h.sc.ConfigureTriggers(&dastard.FullTriggerState{ChannelIndices: []int{idx}}, &reply), false
+		}}
+	}
+	couple := func(b bool) c11Req {
+		return c11Req{fmt.Sprintf("E 0 %d", b2i(b)), func(h *lcH) (error, bool) { return h.sc.CoupleErrToFB(&b, &reply), false }}
+	}
+	switch kind {
+	case 0:
+		return trig(-1)
+	case 1:
+		return trig(nchan)
+	case 2:
+		return c11Req{fmt.Sprintf("P %d 0 1 32 32 1", nchan), func(h *lcH) (error, bool) {
+			pbo := &dastard.ProjectorsBasisObject{ChannelIndex: nchan, ProjectorsBase64: c11Matrix(1, 32),
+				BasisBase64: c11Matrix(32, 1), ModelDescription: "verif"}
+			return h.sc.ConfigureProjectorsBasis(pbo, &reply), false
+		}}
+	case 3:
+		return couple(true)
+	case 4:
+		return trig(0)
+	case 5:
+		return couple(false)
+	case 6:
+		return c11Req{"C 1", func(h *lcH) (error, bool) {
+			txt := "a comment"
+			return h.sc.WriteComment(&txt, &reply), false
+		}}
+	default:
+		return c11Req{"X", func(h *lcH) (error, bool) {
+			var d bool
+			return h.sc.StopTriggerCoupling(&d, &reply), false
+		}}
+	}
+}
+
+// c11Pair: rounds of two control requests in flight at once from two goroutines, one that must fail and one that
+// must succeed.  Gated rounds force the order that would expose a reply handed to the wrong caller: the first
+// caller is parked right after handing over its request (rpc.sent, before it receives its result); the second
+// one is released meanwhile and, whenever it also gets as far as rpc.sent, is let through FIRST.
+func c11Pair(idx int, r *Rng) (string, func() string) {
+	nchan := r.Pick(1, 2, 4)
+	rounds := r.Range(2, 6)
+	gated := r.Chance(70)
+	kinds := make([][2]int, rounds)
+	var sb strings.Builder
+	fmt.Fprintf(&sb, "kind pair nchan %d gated %d reqs %d", nchan, b2i(gated), 2*rounds)
+	for i := range kinds {
+		bad, good := r.Intn(4), 4+r.Intn(4)
+		if r.Bool() {
+			kinds[i] = [2]int{bad, good}
+		} else {
+			kinds[i] = [2]int{good, bad}
+		}
+		sb.WriteString(" " + c11FixedReq(kinds[i][0], nchan).text + " " + c11FixedReq(kinds[i][1], nchan).text)
+	}
+	return sb.String(), func() string {
+		dirp := c11Dir(idx)
+		defer os.RemoveAll(dirp)
+		h, ok := c11Start(idx, nchan)
+		if !ok {
+			return "RET 0 PROBE 0 " + h.finish(true)
+		}
+		var rets []int
+		caller := func(q c11Req) *lcCall {
+			h.nR++
+			role := fmt.Sprintf("R%d", h.nR)
+			c := &lcCall{role: role, done: make(chan struct{}), ret: 2}
+			reg := make(chan struct{})
+			go func() {
+				h.setRole(dastard.VerifGoID(), role)
+				close(reg)
+				if err, _ := q.call(h); err != nil {
+					c.ret = 1
+				} else {
+					c.ret = 0
+				}
+				close(c.done)
+			}()
+			<-reg
+			h.calls = append(h.calls, c)
+			return c
+		}
+		for _, k := range kinds {
+			if gated {
+				dastard.VerifGate("rpc.beforeSend", "rpc.sent")
+			}
+			a := caller(c11FixedReq(k[0], nchan))
+			if gated {
+				lcSettle()
+				h.release(a.role) // hands its request to the loop, then parks at rpc.sent
+			}
+			b := caller(c11FixedReq(k[1], nchan))
+			if gated {
+				lcSettle()
+				h.release(b.role)
+				for n := 0; n < 50 && !(a.isDone() && b.isDone()); n++ {
+					if !h.release(b.role) && !h.release(a.role) {
+						lcSettle()
+						time.Sleep(200 * time.Microsecond)
+					}
+				}
+				dastard.VerifGate()
+				for _, p := range dastard.VerifParked() {
+					dastard.VerifRelease(p.ID)
+				}
+			}
+			a.wait(3 * time.Second)
+			b.wait(3 * time.Second)
+			rets = append(rets, a.ret, b.ret)
+			if a.ret == 2 || b.ret == 2 {
+				break
+			}
+		}
+		probe := 0
+		if h.ds.GetState() == dastard.Active {
+			probe = 1 + b2i(h.c11Feed(nchan, 100000, 0))
+		}
+		return fmt.Sprintf("RET %s PROBE %d %s", ints(rets), probe, h.finish(true))
+	}
+}
+
 func c11Gen(r *Rng, tier string, idx int) (string, func() string) {
 	if idx == 0 {
 		return "kind facts", func() string { return c11Facts() }
 	}
 	switch c := r.Intn(100); {
+	case c < 12:
+		return c11Pair(idx, r)
 	case c < 50:
 		return c11Hist(idx, r)
 	case c < 82:
